@@ -91,8 +91,10 @@ class UpdateReferences:
           found = True
       elif isinstance(elem, gfapy.OrientedLine):
         if elem.line is oldref:
-          if hasattr(oldref, "is_complement") and \
-                            oldref.is_complement(newref):
+          if hasattr(oldref, "is_compatible_direct") and \
+              isinstance(newref, gfapy.Line) and \
+              not newref.is_compatible_direct(oldref.oriented_from,
+                                    oldref.oriented_to, oldref.overlap):
             elem.orient = gfapy.invert(elem.orient)
           elem.line = newref
           found = True
